@@ -355,9 +355,13 @@ def run_animation_real(ctx, case):
                                fps=5)
         ctx.count("animation_runs")
         frames = imageio.mimread(path, memtest=False)
-        if len(frames) != len(order) or len(calls) != len(order):
+        # The GIF encoder merges consecutive identical images (a zero-width or sub-pixel bar
+        # does not change the picture), so the number of frames in the file is only an upper
+        # bound check here; the exact frame-by-frame check is done with stamped frames.
+        if len(calls) != len(order) or not 1 <= len(frames) <= len(order):
             ctx.violation("c20_written_file_frame_count",
-                          {"frames": len(frames), "history": len(order), "entry": "real plotter"})
+                          {"frames": len(frames), "plot_calls": len(calls), "history": len(order),
+                           "entry": "real plotter"})
     finally:
         plt.close("all")
         shutil.rmtree(td, ignore_errors=True)
